@@ -859,6 +859,11 @@ impl Sink<Bytes> for Substream {
                     self.pending_out_frame = Some(pending_frame);
                     return Poll::Pending;
                 }
+                Poll::Ready(Ok(0)) if !pending_frame.is_empty() => {
+                    // The transport accepts no more bytes: report it instead of retrying forever.
+                    self.pending_out_frame = Some(pending_frame);
+                    return Poll::Ready(Err(SubstreamError::IoError(ErrorKind::WriteZero)));
+                }
                 Poll::Ready(Ok(nwritten)) => {
                     pending_frame.advance(nwritten);
 
